@@ -208,8 +208,8 @@ def parts(tier):
                         continue
                     yield (D.labelled(A, "abc"), D.labelled(B, "xyz"), fi)
 
-    hseeds = [("I", "t", 0.0, 4.0, D.labelled(x)) for x in D.interval_sets((0.0, 1.0, 1.25, 2.0, 3.0), 2)] + \
-             [("P", "t", 0.0, 4.0, D.labelled_points(x)) for x in D.point_sets((0.0, 1.0, 1.25, 2.0, 3.0), 2)]
+    hseeds = [("I", "t", 0.0, 4.0, D.labelled(x)) for x in D.interval_sets((0.0, 1.25, 2.0, 3.0), 2)[::2]] + \
+             [("P", "t", 0.0, 4.0, D.labelled_points(x)) for x in D.point_sets((0.0, 1.25, 3.0), 2)]
     hothers = {"I": tierops.OTHERS_I, "P": tierops.OTHERS_P}
     hvals = (0.0, 0.75, 1.0, 2.25, 3.0)
     reuse = InputPart(
